@@ -673,12 +673,13 @@ def gen_replay(pid, rec, model, body, opts=None):
     from .common import ROOT
     opts = opts or {}
     n = rec['n']
-    R, L = model_to_structure(model or {}, n, ('p', 'q'), rec.get('fixed'))
+    aps = tuple(opts.get('aps', ('p', 'q')))
+    R, L = model_to_structure(model or {}, n, aps, rec.get('fixed'))
     if not all(any(a == i for a, b in R) for i in range(n)):
         R = [(i, j) for i in range(n) for j in range(n)]          # no structure came with the finding: any total one will do
         L = {i: (['p'] if i % 2 == 0 else ['q']) for i in range(n)}
     states = opts.get('states') or list(range(n))
-    names = opts.get('label_pool') or {'p': 'p', 'q': 'q'}
+    names = opts.get('label_pool') or {a: a for a in aps}
     order = rec.get('perm') or list(range(n))
     src = GEN_REPLAY % dict(root=ROOT, n=n, R=R, L=L, states=repr(states), order=list(order), junk=repr(list(opts.get('junk') or [])),
                             names=names, body=body, pid=pid)
